@@ -22,7 +22,11 @@ RULE = ("tree: random operator trees (depth <= 4) over + - * / ** (exponents -3.
         "denominator only), equal filters built in different orders / along different paths (== demanded), near "
         "misses; non-trivial = both sides exist and one has >= 2 terms. flist: CascadeFilter / ParallelFilter of "
         "0..4 filters: output, stage-by-stage outputs, numpoly / denpoly, reduce(mul/add) filter output; "
-        "non-trivial = >= 2 members and non-empty input. Distinct = distinct case hash.")
+        "non-trivial = >= 2 members and non-empty input. tree also holds a dedicated stream of powers -3..2 on every "
+        "(number of numerator terms x number of denominator terms) shape around the len >= 2 test of __pow__. lin: "
+        "linearize on filters whose numerator / denominator powers are quarter-integers in [-2, 5] (floats, exact), "
+        "with and without a fractional constructor shift; non-trivial = a fractional power present and a filter "
+        "returned. Distinct = distinct case hash.")
 EXHAUSTIVE = {"quick": False, "thorough": False}
 trusted_base = [
   "coefficients are exact rationals (ExactQ, the int 1 the library itself stores); powers are Python ints; "
@@ -32,6 +36,8 @@ trusted_base = [
   "hash: the model says on which list of powers hash(filter) depends (sorted numerator powers + sorted denominator "
   "powers); that equal tuples of ints hash equally is CPython, not modelled",
   "symbolic inputs: a LinForm run is decomposed into its basis responses (LinForm raises on any non-linear use)",
+  "linearize: the model starts from list(poly.terms()) of the filter as the implementation yields it (the Poly "
+  "constructor with fractional float keys is not modelled); float powers are dyadic so the weights are exact",
 ]
 ASSUMPTIONS = ["coefficient arithmetic stays inside the exact rationals (one numeric type Qc in the model)",
                "OrderedDict keeps insertion order, re-assignment keeps the position (CPython)",
